@@ -115,8 +115,8 @@ CLAIMED = {
     ),
     "C10": (
         "proof",
-        "Coq proofs of inertness on the rule models (table, strikethrough) + whole-pipeline correspondence under random rule subsets + switch-effect oracles on the implementation",
-        "Theorems: for EVERY source and configuration every token the block parser appends has the (type, tag) of the vocabulary of a rule that is in the chain - no table tokens without the table rule, no headings without heading/lheading, no html_block without its rule and options.html (C10_block_kinds_need_producer; its side condition 'terminator chains are sub-lists of the main chain' holds for every configuration compiled from a Ruler state, C10_ruler_chains). For ALL states: the table rule returns False without touching the state on any source that contains no '|' (C10_table_inert); the strikethrough tokenizer and post-processor do nothing on input without '~' (C10_strikethrough_inert, C10_strikethrough_post_inert). Decided on the implementation each run: token kinds (inline kinds included) vs the producer map of the enabled rules under random rule subsets of every preset; table / strikethrough on vs off on inputs without their trigger (incl. paragraph + delimiter-row-like lines); inline_definitions / store_labels on vs off (tokens modulo definition tokens and label meta, env, HTML modulo line breaks after tags); each option set by constructor, item assignment and (for the nine core options) attribute assignment.",
+        "Coq theorems on the block and inline parser models (every token kind needs a producer in the chain; table / strikethrough inert) + whole-pipeline correspondence under random rule subsets + switch-effect oracles on the implementation",
+        "Theorems: for EVERY source and configuration every token the block parser appends has the (type, tag) of the vocabulary of a rule that is in the chain - no table tokens without the table rule, no headings without heading/lheading, no html_block without its rule and options.html (C10_block_kinds_need_producer; its side condition 'terminator chains are sub-lists of the main chain' holds for every configuration compiled from a Ruler state, C10_ruler_chains); likewise every token the inline parser leaves is text or of a kind one of whose producers is in the chain - text_special: escape or entity, softbreak: newline, hardbreak: newline or escape, code_inline: backticks, link_open/close: link or autolink, image: image, html_inline: options.html, s_*: the strikethrough post-rule, em / strong: the emphasis post-rule (C10_inline_kinds_need_producer, C10_no_backticks_no_code_inline; Lemmas/InlineProducers.v: all 12 tokenizer rules, label / image recursion, skipToken, the post-processing chain). For ALL states: the table rule returns False without touching the state on any source that contains no '|' (C10_table_inert); the strikethrough tokenizer and post-processor do nothing on input without '~' (C10_strikethrough_inert, C10_strikethrough_post_inert). Decided on the implementation each run: token kinds (inline kinds included) vs the producer map of the enabled rules under random rule subsets of every preset; table / strikethrough on vs off on inputs without their trigger (incl. paragraph + delimiter-row-like lines); inline_definitions / store_labels on vs off (tokens modulo definition tokens and label meta, env, HTML modulo line breaks after tags); each option set by constructor, item assignment and (for the nine core options) attribute assignment.",
         "Trusted: Coq kernel; models tied by sampled correspondence under random rule subsets; whole-chain statements (kinds need producer, option routes) by exploration (partial).",
         "DESIGN.md §3 C10",
     ),
